@@ -206,6 +206,9 @@ func runC06(t *testing.T, planAny any, res *simnet.Result) {
 		}
 
 		probe := func(variant, origin string) {
+			// (what has been handed to x may still be waiting at a yield point, up to 3 ms: "handed over" must mean
+			// "processed" before the newest accepted update is read off the wire record)
+			time.Sleep(4 * time.Millisecond)
 			simnet.Quiesce()
 			var u *simnet.RoutingUpdate
 			expectChange := false
